@@ -225,6 +225,10 @@ p_harness!(c01_p_verbose_string_le, 20, Shape { storage: false, htyp: H_EXT_LE, 
 p_harness!(c01_p_nettrace_le, 20, Shape { storage: false, htyp: H_EXT_LE, msin: M_NW_CAN_V, ids: IDS_FULL, payload: P::NetTrace(&[2]) }, 2);
 p_harness!(c01_p_nettrace_be, 20, Shape { storage: false, htyp: H_EXT_BE, msin: M_NW_CAN_V, ids: IDS_FULL, payload: P::NetTrace(&[3]) }, 2);
 
+// verbose-kind payloads with zero arguments / slices keep their kind
+p_harness!(c01_p_nettrace_empty, 20, Shape { storage: false, htyp: H_EXT_BE, msin: M_NW_CAN_V, ids: IDS_FULL, payload: P::NetTrace(&[]) }, 2);
+p_harness!(c01_p_verbose_empty, 20, Shape { storage: false, htyp: H_EXT_LE, msin: M_LOG_INFO_V, ids: IDS_FULL, payload: P::Verbose(&[]) }, 2);
+
 /// probe: storage shape with the specification stub of the pattern search
 #[kani::proof]
 #[kani::unwind(20)]
